@@ -153,7 +153,8 @@ Definition validate (e : expr) : bool :=
 
 (* balloon types, restricted to what selection reads *)
 Record bdef := BDef { d_name : string; d_match : list expr; d_ns : list string }.
-Record bopts := BOpts { o_defs : list bdef; o_reserved_ns : list string }.
+(* o_reserved_ns = None: reservedPoolNamespaces absent (nil) *)
+Record bopts := BOpts { o_defs : list bdef; o_reserved_ns : option (list string) }.
 Inductive choice := ChErr | ChPanic | ChDef (d : bdef).
 
 Section WithStdlib.
@@ -261,18 +262,27 @@ Definition kube_system : string := "kube-system".
 Fixpoint has_dup (l : list string) : bool :=
   match l with [] => false | x :: t => existsb (String.eqb x) t || has_dup t end.
 
-(* fillBuiltinBalloonDefs + the name checks of validateConfig, restricted to what selection
+(* Config.Validate (every match expression of every type validates; the agent rejects the
+   configuration otherwise), setOmittedDefaults (absent reservedPoolNamespaces -> [kube-system]),
+   fillBuiltinBalloonDefs and the name checks of validateConfig, restricted to what selection
    reads (name, matchExpressions, namespaces).  None = configuration rejected.
    The code appends the namespaces to the *last* type named "reserved"; types with duplicate
    names are rejected right after, so appending to every such type is indistinguishable. *)
-Definition eff_config (o : bopts) : option (list bdef * bdef) :=
+Definition reserved_ns_of (o : bopts) : list string :=
+  match o_reserved_ns o with Some l => l | None => [kube_system] end.
+
+Definition fill_builtin (o : bopts) : list bdef :=
   let defs := o_defs o in
   let has n := existsb (fun d => d_name d =? n) defs in
   let defs1 := if has reserved_name then defs else BDef reserved_name [] [] :: defs in
   let defs2 := if has default_name then defs1 else (defs1 ++ [BDef default_name [] []])%list in
-  let defs3 := map (fun d => if d_name d =? reserved_name
-                             then BDef (d_name d) (d_match d) (d_ns d ++ kube_system :: o_reserved_ns o)%list
-                             else d) defs2 in
+  map (fun d => if d_name d =? reserved_name
+                then BDef (d_name d) (d_match d) (d_ns d ++ kube_system :: reserved_ns_of o)%list
+                else d) defs2.
+
+Definition eff_config (o : bopts) : option (list bdef * bdef) :=
+  if negb (forallb (fun d => forallb validate (d_match d)) (o_defs o)) then None else
+  let defs3 := fill_builtin o in
   if existsb (fun d => is_empty (d_name d)) defs3 || has_dup (map d_name defs3) then None
   else match find (fun d => d_name d =? default_name) defs3 with
        | Some d => Some (defs3, d)
